@@ -373,18 +373,28 @@ def _norm_cond(c):
 def pattern_clauses(repo, fi: FuncInfo):
     """clauses of the inner predicate of a pattern function, as canonical conditions over candles[i +/- k]"""
     inner = [n for n in fi.node.body if isinstance(n, ast.FunctionDef)]
-    if len(inner) != 1:
-        raise AnalysisError(f"{fi.where}: pattern {fi.name} no longer has exactly one inner predicate function")
-    fn = inner[0]
     it = AnalysisInterp(repo, fi)
     it.if_convert = True
     st = State()
     st.env["candles"] = Obj("candles")
-    params = [a.arg for a in fn.args.args]
-    st.env[params[0]] = Num(A("sym", "i"))
+    if len(inner) == 1:
+        fn = inner[0]
+        body_stmts = fn.body
+        params = [a.arg for a in fn.args.args]
+        st.env[params[0]] = Num(A("sym", "i"))
+    else:
+        # the predicate written out in the single-candle arm (`if lookback is None: ...`) of the pattern function itself (e.g. after the
+        # predicate was hoisted to a module-level helper, which the loader inlines)
+        fparams = [a.arg for a in fi.node.args.args]
+        arms = [n for n in fi.node.body if isinstance(n, ast.If) and isinstance(n.test, ast.Compare) and len(n.test.ops) == 1 and isinstance(n.test.ops[0], ast.Is) and isinstance(n.test.left, ast.Name) and n.test.left.id in fparams and isinstance(n.test.comparators[0], ast.Constant) and n.test.comparators[0].value is None]
+        idx_vars = [n.targets[0].id for n in fi.node.body if isinstance(n, ast.Assign) and len(n.targets) == 1 and isinstance(n.targets[0], ast.Name) and isinstance(n.value, ast.Call) and ast.unparse(n.value.func).endswith("absindex")]
+        if len(arms) != 1 or len(idx_vars) != 1:
+            raise AnalysisError(f"{fi.where}: pattern {fi.name} has neither an inner predicate function nor a single-candle arm the analysis can find")
+        body_stmts = arms[0].body
+        st.env[idx_vars[0]] = Num(A("sym", "i"))
     guard = None
     test = None
-    for s in fn.body:
+    for s in body_stmts:
         if isinstance(s, ast.If) and all(isinstance(x, ast.Return) for x in s.body) and not s.orelse:
             r = s.body[0]
             if isinstance(r.value, ast.Constant) and r.value.value is False:
@@ -405,7 +415,7 @@ def pattern_clauses(repo, fi: FuncInfo):
         raise AnalysisError(f"{fi.where}: unmodelled statement in the inner predicate of {fi.name}: {ast.unparse(s)[:60]}")
     if test is None:
         raise AnalysisError(f"{fi.where}: cannot find the predicate expression of {fi.name}")
-    cond = it.truth(test, st, fn)
+    cond = it.truth(test, st, fi.node)
     return guard, [canon_bv(c) if isinstance(c, tuple) else c for c in _flatten_and(cond)]
 
 
